@@ -23,3 +23,7 @@ def check(ctx: Ctx) -> None:
     S.r_counters(ctx, "R03.9")
     S.r_handoff(ctx, "R02.1")
     S.r_snapshot_forget(ctx, "R13.1")
+    # "... until the pool is closed": closing forgets a registry wholesale - a task forgotten while it still runs finds itself in no
+    # registry when it ends, its ending raises KeyError and its end callback never runs
+    from . import close as CL
+    CL.r_forget_only_gathered(ctx, "R03.11")
